@@ -929,7 +929,8 @@ class VM:
             compiled_func = self.stack.pop()
             if isinstance(compiled_func, CompiledFunction):
                 js_func = JSFunction(
-                    name=compiled_func.name,
+                    name=getattr(compiled_func, "display_name", None)
+                    or compiled_func.name,
                     params=compiled_func.params,
                     bytecode=compiled_func.bytecode,
                 )
